@@ -97,7 +97,7 @@ func (sh c03Shape) usesSwap() bool { return strings.Contains(sh.Label, "SWAP") }
 // toleratedSite: the only fault sites after which a SUCCESS acknowledgement is acceptable — the
 // statistics update (deliberately swallowed) and the params read (fails closed to limit 0).
 func toleratedSite(site string) bool {
-	return strings.HasPrefix(site, "store.") && (strings.Contains(site, "[stats_") || site == "store.Get[params]")
+	return strings.HasPrefix(site, "store.") && (strings.Contains(site, "[stats]") || site == "store.Get[params]")
 }
 
 func init() { register("C03", checkC03) }
@@ -199,6 +199,7 @@ func checkC03(tier string) *Report {
 			}
 		}
 	}
+	rep.Extra["store_layout_learned"] = worlds[0].learnLayout().String()
 	rep.Extra["shapes"] = len(shapes)
 	rep.Extra["fault_plans"] = len(jobs)
 	for _, sh := range shapes[:min(3, len(shapes))] {
